@@ -148,6 +148,10 @@ static inline XmiSong gen_xmi_song(Rng &r, int song_index, int max_events = 40)
     std::vector<uint8_t> &b = s.evnt;
     // tempo meta at time 0
     b.push_back(0xFF); b.push_back(0x51); b.push_back(0x03); put_be(b, s.tempo_us, 3);
+    // An XMI sequence plays at AIL's fixed 120 Hz: the first tempo event is what "carries its tempo" (it fixes the division of the
+    // converted song), further tempo events (a second one at time 0, or later in the sequence) must not change the tick rate
+    const bool more_tempos = r.chance(0.3);
+    if(more_tempos && r.chance(0.5)) { uint32_t t2; do t2 = r.pick(tempos); while(t2 == s.tempo_us); b.push_back(0xFF); b.push_back(0x51); b.push_back(0x03); put_be(b, t2, 3); }
     uint64_t tick = 0;
     std::vector<XEv> offs;
     int nev = r.range(3, max_events);
@@ -156,6 +160,7 @@ static inline XmiSong gen_xmi_song(Rng &r, int song_index, int max_events = 40)
         uint32_t d = r.chance(0.4) ? 0 : (r.chance(0.9) ? (uint32_t)r.range(1, 120) : (uint32_t)r.range(128, 900));
         xmi_delay(b, d);
         tick += d;
+        if(more_tempos && r.chance(0.12)) { uint32_t t2; do t2 = r.pick(tempos); while(t2 == s.tempo_us); b.push_back(0xFF); b.push_back(0x51); b.push_back(0x03); put_be(b, t2, 3); }
         int ch = r.chance(0.2) ? 9 : (song_index * 3 + (int)r.below(3)) % 16;
         int kind = (int)r.below(100);
         XEv x; x.tick = tick;
